@@ -1,7 +1,7 @@
 """C16 - counters saturate: every store into a fixed-width counter cell or element total is bounded (E5)."""
 from __future__ import annotations
 
-from ..common import all_events, cell_range_fn, class_of_root, conds_at, all_conds, nshow, outer_field, own_methods, paths, typed_fields
+from ..common import all_events, apaths, cell_range_fn, class_of_root, conds_at, all_conds, nshow, outer_field, own_methods, paths, typed_fields
 from ..expr import SELF, root_of, show, walk
 from ..intervals import Intervals, TYPE_RANGE, fmt_iv, within
 from ..model import AnalysisError
@@ -58,7 +58,7 @@ def check(prog, rep, tier):
         for f in funcs:
             if f.kind == "classmethod" or f.src_name in ("__init__",):
                 continue
-            ps = paths(prog, ctx, f)
+            ps = apaths(prog, ctx, f)
             rep.analysed(f, ctx, len(ps))
             params = {"num_els": (1, None)}
 
@@ -77,7 +77,9 @@ def check(prog, rep, tier):
                 rng = crange(e.cont)
                 if rng is None:
                     continue
-                iv = Intervals(conds_at(p, e), params, crange, field_range).iv(e.value)
+                ivs = Intervals(conds_at(p, e), params, crange, field_range)
+                # a slice store writes a block: the obligation is on the elements of the stored sequence
+                iv = ivs.elem_iv(e.value) if e.index[0] == "slc" else ivs.iv(e.value)
                 unsigned = rng[0] == 0
                 ok = True
                 why = ""
